@@ -29,6 +29,7 @@ BOUNDS = [
     "scenes from a committed list: <=3 sources (custom sources with faulting field functions, a class group of dipoles, a collection), "
     "1-2 sensors, path lengths in {1,2,3}, pixel layouts {None,(3,),(2,3)}",
     "fault kinds per field-function invocation: raise, return None, return wrong shape, normal (symbolic booleans, all schedules)",
+    "functional interface with n=2 per-instance caller arrays for Tetrahedron (one of negative chirality), Cuboid, Polyline, TriangularMesh, Dipole",
     "argument faults: invalid pixel_agg, invalid output, incompatible pixel shapes, missing excitation, unsupported field of a custom source",
 ]
 CUTS = ["local field functions are uninterpreted; scipy Rotation replaced by SymRot"]
@@ -95,8 +96,21 @@ SCENES = {
 ARG_FAULTS = ["pixel_agg=bogus", "output=bogus", "pixel-shapes", "missing-moment", "unsupported-field", "field_func=None"]
 
 
+CALLER = {
+    # functional interface: parameter arrays supplied by the caller (n=2 instances); second tetrahedron has negative chirality
+    "Tetrahedron": {"vertices": [[(0, 0, 0), (1, 0, 0), (0, 1, 0), (0, 0, 1)], [(0, 0, 0), (0, 1, 0), (1, 0, 0), (0, 0, 1)]], "polarization": "sym(2,3)"},
+    "Cuboid": {"dimension": "sym+(2,3)", "polarization": "sym(2,3)"},
+    "Polyline": {"vertices": [[(0, 0, 0), (1, 0, 0), (1, 2, 0)], [(0, 0, 1), (0, 3, 1), (4, 3, 1)]], "current": "sym(2,)"},
+    "TriangularMesh": {"mesh": "tetra-meshes", "polarization": "sym(2,3)"},
+    "Dipole": {"moment": "sym(2,3)"},
+}
+
+
 def cases(tier, seed):
     out = []
+    for cls in CALLER:
+        for f in ("B", "H", "J"):
+            out.append({"id": f"caller-arrays-{cls}-{f}", "kind": "caller", "cls": cls, "field": f, "weight": 2})
     for nm in SCENES:
         out.append({"id": f"faults-{nm}", "kind": "faults", "scene": nm, "weight": 5})
     for af in ARG_FAULTS:
@@ -142,9 +156,101 @@ def run_case(case, info):
     C = Case(case, info)
     if case["kind"] == "faults":
         _faults(C)
+    elif case["kind"] == "caller":
+        _caller(C)
     else:
         _argfault(C)
     return C.result()
+
+
+def _caller_args(cls, symbolic, env=None):
+    from .wrappers import tetra_mesh, UNIT_TETRA
+
+    rng = np.random.default_rng(9)
+    args = {}
+    pre = []
+    for k, v in CALLER[cls].items():
+        if v == "tetra-meshes":
+            a = np.array([tetra_mesh(UNIT_TETRA), tetra_mesh(UNIT_TETRA, shift=(2, 0, 0), scale=1.5)])
+            args[k] = oarr(a) if symbolic else a
+        elif isinstance(v, str):
+            shp = eval(v[v.index("("):])
+            shp = shp if isinstance(shp, tuple) else (shp,)
+            if symbolic:
+                a = symarr("c_" + k, shp)
+                if v.startswith("sym+"):
+                    pre += [toz(x) > 0 for x in a.ravel()]
+                args[k] = a
+            else:
+                a = np.zeros(shp)
+                for idx in np.ndindex(*shp):
+                    val = (env or {}).get("c_" + k + "_" + "_".join(map(str, idx)))
+                    a[idx] = val if val is not None else (abs(rng.normal()) + 0.5)
+                args[k] = a
+        else:
+            a = np.array(v, dtype=float)
+            args[k] = oarr(a) if symbolic else a
+    if symbolic:
+        args["observers"] = symarr("c_obs", (2, 3))
+        args["position"] = symarr("c_pos", (2, 3))
+    else:
+        g = lambda nm: (env or {}).get(nm) if (env or {}).get(nm) is not None else float(rng.normal())
+        args["observers"] = np.array([[g(f"c_obs_{i}_{c}") for c in range(3)] for i in range(2)])
+        args["position"] = np.array([[g(f"c_pos_{i}_{c}") for c in range(3)] for i in range(2)])
+    return args, pre
+
+
+def _call_functional(cls, f, args):
+    from magpylib._src.fields.field_wrap_BH import getBH_level2
+
+    kw = {k: v for k, v in args.items() if k != "observers"}
+    return getBH_level2(cls, args["observers"], field=f, sumup=False, squeeze=True, pixel_agg=None, output="ndarray", in_out="auto", **kw)
+
+
+def _caller(C):
+    from .wrappers import WRAPPERS, apply_cuts
+
+    cls, f = C.case["cls"], C.case["field"]
+    wkey = {"Tetrahedron": "tetra", "Cuboid": "cuboid", "Polyline": "polyline", "TriangularMesh": "trimesh", "Dipole": "dipole"}[cls]
+    apply_cuts(WRAPPERS[wkey].cuts)
+
+    def run():
+        args, pre = _caller_args(cls, True)
+        copies = {k: np.array(v, dtype=object, copy=True) for k, v in args.items()}
+        try:
+            _call_functional(cls, f, args)
+            how = "return"
+        except Exception as e:  # noqa
+            how = f"{type(e).__name__}: {e}"
+        return args, copies, pre, how
+
+    args0, pre0 = _caller_args(cls, True)
+    CTX.pre = pre0
+    inputs = [x for a in args0.values() for x in np.asarray(a, dtype=object).ravel()]
+
+    def on_path(p):
+        C.paths += 1
+        if p.status != "ok":
+            C.note_inconclusive(f"p{C.paths}", f"aborted: {p.out}")
+            return
+        args, copies, pre, how = p.out
+        rp = {"kind": "caller", "cls": cls, "field": f}
+        terms = []
+        for k, a in args.items():
+            a = np.asarray(a, dtype=object)
+            if a.shape != copies[k].shape:
+                C.obligations.append({"name": f"p{C.paths}.{k}.shape", "status": "sat", "note": f"caller array {k} changed shape"})
+                C.candidates.append({"key": f"C08|functional|caller-array|{cls}|{k}", "replay": dict(rp, env={})})
+                return
+            terms.append(neq_any(a, copies[k]))
+        C.oblige(f"p{C.paths}.caller-arrays-unchanged[{how[:30]}]", p.pc, z3.Or(*terms), inputs=inputs, key=f"C08|functional|caller-array|{cls}",
+                 on_model=lambda env: {"key": f"C08|functional|caller-array|{cls}", "replay": dict(rp, env=env)},
+                 sample=f"get{f}('{cls}', observers, **per-instance arrays): every array passed by the caller is term-identical afterwards")
+
+    paths = explore(run, max_paths=60 if C.tier == "quick" else 400, on_path=on_path, seeds=C.seed_envs(inputs, n=1))
+    C.decisions += sum(len(p.decisions) for p in paths)
+    if explore.truncated:
+        C.note_inconclusive("path-budget", "path budget hit")
 
 
 def _build(spec, state=None, plan=None, symbolic=True, env=None):
@@ -324,6 +430,16 @@ def replay(spec):
                 return self[k]
 
         env = _E()
+    if spec["kind"] == "caller":
+        args, _ = _caller_args(spec["cls"], False, env=spec.get("env") or {})
+        copies = {k: np.array(v, copy=True) for k, v in args.items()}
+        try:
+            _call_functional(spec["cls"], spec["field"], args)
+            how = "return"
+        except Exception as e:  # noqa
+            how = type(e).__name__
+        changed = [k for k, v in args.items() if np.shape(v) != copies[k].shape or not np.array_equal(np.asarray(v), copies[k])]
+        return bool(changed), f"get{spec['field']}('{spec['cls']}', ...) ended with {how}; caller arrays changed: {changed or 'none'}"
     if spec["kind"] == "faults":
         sc = _build(SCENES[spec["scene"]], plan=spec["plan"], symbolic=False, env=env)
         sc.patch_classes()
